@@ -243,7 +243,7 @@ pub fn run(tier: Tier, seed: u64) -> Report {
         .into();
     r.assumptions = vec!["a mint/burn pair that cancels exactly is excluded (C10's subject)".into()];
     r.explore("redeemers", tier.pick(40_000, 1_000_000), 1200, &|t, rc| check_case(t, rc));
-    r.explore("redeemers_data_heavy", tier.pick(15_000, 400_000), 700, &|t, rc| check_data_case(t, rc));
+    r.explore("redeemers_data_heavy", tier.pick(15_000, 400_000), 3000, &|t, rc| check_data_case(t, rc));
     r
 }
 
